@@ -57,6 +57,30 @@ Proof.
   destruct ((x =? 13) && (y =? 10)); [exact H|]. apply (IH (S i) n b H).
 Qed.
 
+Lemma read_and_skip_inv : forall exp l r, read_and_skip exp l = R_ok r -> l = exp ++ r.
+Proof.
+  induction exp as [|e exp IH]; intros l r H; cbn in *; [inversion H; reflexivity|].
+  destruct l as [|x l]; [discriminate|]. destruct (x =? e) eqn:E; [|discriminate].
+  apply N.eqb_eq in E. subst x. rewrite (IH l r H). reflexivity.
+Qed.
+Lemma read_and_skip_self : forall exp r, read_and_skip exp (exp ++ r) = R_ok r.
+Proof. induction exp as [|e exp IH]; intros r; cbn; [reflexivity|]. rewrite N.eqb_refl. apply IH. Qed.
+Lemma read_until_inv : forall d l acc a r, read_until d l acc = Some (a, r) -> exists m, a = acc ++ m /\ l = m ++ d :: r /\ ~ In d m.
+Proof.
+  intros d l. induction l as [|x l IH]; intros acc a r H; cbn in H; [discriminate|].
+  destruct (x =? d) eqn:E.
+  - apply N.eqb_eq in E. subst x. inversion H; subst. exists []. rewrite app_nil_r. repeat split; auto.
+  - destruct (IH _ _ _ H) as [m [Ha [Hl Hn]]]. exists (x :: m). rewrite Ha, <- app_assoc. cbn. rewrite Hl. repeat split; auto.
+    intros [Hx|Hx]; [subst x; rewrite N.eqb_refl in E; discriminate|exact (Hn Hx)].
+Qed.
+Lemma read_until_self : forall d m r acc, ~ In d m -> read_until d (m ++ d :: r) acc = Some (acc ++ m, r).
+Proof.
+  intros d m. induction m as [|x m IH]; intros r acc Hn; cbn.
+  - rewrite N.eqb_refl, app_nil_r. reflexivity.
+  - destruct (x =? d) eqn:E; [apply N.eqb_eq in E; subst x; exfalso; apply Hn; left; reflexivity|].
+    rewrite IH by (intros Hx; apply Hn; right; exact Hx). rewrite <- app_assoc. reflexivity.
+Qed.
+
 (* ---------- 2. the header parser as a function of the header bytes *)
 Section Frag.
   Variables (sha256 : bytes -> bytes) (hmac256 : bytes -> bytes -> bytes) (hex : bytes -> bytes).
@@ -124,5 +148,114 @@ Section Frag.
   Proof.
     intros s p. unfold SignedChunk.parse_header, ph_core, stash_len, stash_bytes.
     destruct (stash s) as [st|]; reflexivity.
+  Qed.
+
+  (* ---------- the parser proper: a function of the header bytes alone.  None = the bytes ran out *)
+  Inductive hres :=
+  | HErr (e : rerr)
+  | HData (size : Z) (sig : bytes) (hdlen : nat)            (* hdlen: length of the header, counted from the start of the bytes *)
+  | HFinal (sig : bytes) (tr : option (bytes * bytes)).     (* trailer signature, declared checksum *)
+
+  Definition hparse (first : bool) (header : bytes) : option hres :=
+    let skip_k (exp l : bytes) (k : bytes -> option hres) : option hres :=
+      match read_and_skip exp l with R_ok r => k r | R_eof => None | R_bad => Some (HErr E_Malformed) end in
+    let until_k (d : N) (l : bytes) (k : bytes -> bytes -> option hres) : option hres :=
+      match read_until d l [] with Some (a, r) => k a r | None => None end in
+    let start (k : bytes -> nat -> option hres) : option hres :=
+      if first then k header O else skip_k [13; 10] header (fun r => k r 2%nat) in
+    start (fun r0 skip =>
+    until_k 59 r0 (fun sizeStr r1 =>
+    match parse_hex sizeStr with
+    | None => Some (HErr E_InvalidChunk)
+    | Some size =>
+      if (size <? 0)%Z then Some (HErr E_InvalidChunk) else
+      skip_k chunkSigKw r1 (fun r2 =>
+      until_k 13 r2 (fun sig r3 =>
+      if (size =? 0)%Z then
+        match trailer with
+        | Some t =>
+            skip_k [10] r3 (fun r4 =>
+            until_k 58 r4 (fun tname r5 =>
+            if negb (beq tname (trailer_name t)) then Some (HErr E_InvalidChunk) else
+            until_k 13 r5 (fun checksum r6 =>
+            if negb (valid_checksum t checksum) then Some (HErr E_InvalidTrailer) else
+            skip_k [10] r6 (fun r7 =>
+            until_k 58 r7 (fun tsp r8 =>
+            if negb (beq tsp trailerSigKw) then Some (HErr E_InvalidChunk) else
+            until_k 13 r8 (fun tsig r9 =>
+            skip_k [10; 13; 10] r9 (fun _ => Some (HFinal sig (Some (tsig, checksum))))))))))
+        | None => skip_k [10; 13; 10] r3 (fun _ => Some (HFinal sig None))
+        end
+      else
+        skip_k [10] r3 (fun _ =>
+        match index_crlf (skipn skip header) O with
+        | None => Some (HErr E_Panic)
+        | Some ind => Some (HData size sig (ind + skip + 2))
+        end)))
+    end)).
+
+  Definition apply_h (s : cst) (stashLen : nat) (r : hres) : ph :=
+    match r with
+    | HErr e => PH_err e
+    | HData size sig n =>
+        PH_ok {| stash := None; left := left s; prevSig := prevSig s; parsedSig := parsedSig s; hbuf := hbuf s;
+                 cbuf := cbuf s; firstHdr := false; isEOF := isEOF s; trailerSig := trailerSig s;
+                 parsedChecksum := parsedChecksum s |} size sig (Z.of_nat n - Z.of_nat stashLen)
+    | HFinal sig None => PH_ok (set_stash s None) 0 sig 0
+    | HFinal sig (Some (tsig, checksum)) =>
+        PH_ok {| stash := None; left := left s; prevSig := prevSig s; parsedSig := parsedSig s; hbuf := hbuf s;
+                 cbuf := cbuf s; firstHdr := firstHdr s; isEOF := isEOF s; trailerSig := tsig;
+                 parsedChecksum := checksum |} 0 sig 0
+    end.
+
+  Definition on_eof (s : cst) (header : bytes) : ph :=
+    if isEOF s then PH_err E_InvalidChunk else PH_skip (set_stash (set_stash s None) (Some header)).
+
+  Ltac hstep :=
+    match goal with
+    | |- context [read_and_skip ?a ?b] => destruct (read_and_skip a b) eqn:?
+    | |- context [read_until ?d ?l ?acc] => destruct (read_until d l acc) as [[? ?]|] eqn:?
+    | |- context [parse_hex ?a] => destruct (parse_hex a) eqn:?
+    | |- context [index_crlf ?a ?b] => destruct (index_crlf a b) eqn:?
+    | |- context [(?a <? ?b)%Z] => destruct (a <? b)%Z eqn:?
+    | |- context [(?a =? ?b)%Z] => destruct (a =? b)%Z eqn:?
+    | |- context [negb ?a] => destruct (negb a) eqn:?
+    end.
+
+  Lemma ph_core_hparse : forall s header n,
+    ph_core s header n = match hparse (firstHdr s) header with None => on_eof s header | Some r => apply_h s n r end.
+  Proof.
+    intros s header n. unfold ph_core, hparse, on_eof.
+    destruct (firstHdr s) eqn:Hf; destruct trailer as [t|]; cbv beta zeta;
+      repeat (first [reflexivity | hstep; cbv beta iota; cbn [apply_h]]); try (rewrite ?Hf; reflexivity).
+  Qed.
+
+  (* a verdict reached on a header stands when more bytes follow *)
+  Ltac mstep b :=
+    match goal with
+    | H : context [read_and_skip ?e ?l] |- _ =>
+        let E := fresh "E" in destruct (read_and_skip e l) eqn:E;
+        [rewrite (read_and_skip_ok_app _ _ _ b E) | discriminate H | rewrite (read_and_skip_bad_app _ _ b E)]
+    | H : context [read_until ?d ?l ?acc] |- _ =>
+        let E := fresh "E" in destruct (read_until d l acc) as [[? ?]|] eqn:E;
+        [rewrite (read_until_app _ _ _ _ _ b E) | discriminate H]
+    | H : context [parse_hex ?a] |- _ => destruct (parse_hex a) eqn:?
+    | H : context [(?a <? ?c)%Z] |- _ => destruct (a <? c)%Z eqn:?
+    | H : context [(?a =? ?c)%Z] |- _ => destruct (a =? c)%Z eqn:?
+    | H : context [negb ?a] |- _ => destruct (negb a) eqn:?
+    end.
+
+  Lemma hparse_mono : forall first h r b, hparse first h = Some r -> hparse first (h ++ b) = Some r.
+  Proof.
+    intros first h r b H. unfold hparse in *.
+    destruct first; destruct trailer as [t|]; cbv beta zeta in *;
+      repeat (first [exact H | mstep b; cbv beta iota in * ]).
+    all: try match goal with
+         | E : read_and_skip [13; 10] h = R_ok ?r0 |- _ => rewrite (read_and_skip_inv _ _ _ E) in *; cbn [skipn app] in *
+         end.
+    all: cbn [skipn] in *.
+    all: match goal with
+         | H : context [index_crlf ?l 0] |- _ => destruct (index_crlf l 0) eqn:Ei; [rewrite (index_crlf_app _ _ _ b Ei); exact H| discriminate H]
+         end.
   Qed.
 End Frag.
